@@ -13,7 +13,8 @@ RULE = (
     'composite whose only process deletes itself, scripts D^{<=k}.(F u '
     '{run_for(1)}) (so also never-forcing scripts); A-family with the '
     'UNRESTRICTED timestep/condition menus at every poll, <= bound '
-    'deviations; precision worlds (global_time_precision x decimal '
+    'deviations, AND explicit-state BFS over all answer sequences up to a '
+    'number of choice points with scheduler-state merging; precision worlds (global_time_precision x decimal '
     'timesteps x run lengths x emit_step). Oracle: online clock monitor on '
     'every clock write (monotone, bounded by the call end, exact landing), '
     'lasso detector for non-termination, grid membership and coincidence '
@@ -49,6 +50,14 @@ def s_jobs(ctx):
         for procs in itertools.product(pc, repeat=3):
             for sc in sched.scripts(1, finals=FINALS):
                 jobs.append(('S', procs, sc, False))
+    # the engine starts at a non-zero (dyadic) time
+    small = list(itertools.product([0.75, 1, 2], conds))
+    for procs in itertools.product(small, repeat=2):
+        for sc in sched.scripts(1, finals=FINALS):
+            jobs.append(('S', procs, sc, False, 10.5))
+    for procs in small:
+        for sc in sched.scripts(2, finals=FINALS):
+            jobs.append(('S', (procs,), sc, False, 0.25))
     return jobs
 
 
@@ -243,7 +252,27 @@ def run_precision(job, acc):
         acc.violate(v)
 
 
+def bfs_jobs(ctx):
+    """Explicit-state search over ALL answer sequences (state merging)."""
+    jobs = []
+    scripts = afamily.A_SCRIPTS_QUICK if ctx.quick else \
+        afamily.A_SCRIPTS_THOROUGH
+    for n in (1, 2):
+        for sc in scripts:
+            # 200 choice points: the state space is exhausted long before
+            jobs.append(('BFS', n, sc, False, False, 200))
+            if n == 2 and not ctx.quick:
+                jobs.append(('BFS', n, sc, False, True, 200))
+    if not ctx.quick:
+        for sc in scripts[:3]:
+            jobs.append(('BFS', 3, sc, False, False, 200))
+    return jobs
+
+
 def run_job(job, acc):
+    if job[0] == 'BFS':
+        afamily.run_bfs_job(job, acc, MONITORS)
+        return
     if job[0] == 'S':
         C01.run_s(job, acc, MONITORS)
     elif job[0] == 'X':
@@ -255,7 +284,9 @@ def run_job(job, acc):
 
 
 def run(ctx):
-    acc = ctx.map(run_job, afamily.a_jobs(ctx, restricted=False), chunk=1)
+    acc = ctx.map(run_job, bfs_jobs(ctx), chunk=1)
+    ctx.map(run_job, afamily.a_jobs(ctx, restricted=False), acc=acc,
+            chunk=1)
     jobs = s_jobs(ctx) + special_worlds(ctx) + precision_jobs(ctx)
     return ctx.map(run_job, jobs, acc=acc)
 
@@ -265,7 +296,9 @@ def replay(case):
     fam = case.get('family')
     if fam == 'S':
         C01.run_s(('S', case['procs'], case['script'],
-                   case.get('nested', False)), acc, MONITORS)
+                   case.get('nested', False),
+                   case.get('engine', {}).get('initial_global_time', 0)),
+                  acc, MONITORS)
     elif fam == 'X':
         run_special(('X', case), acc)
     elif fam == 'P':
